@@ -9,6 +9,7 @@ import (
 	"go/constant"
 	"go/token"
 	"go/types"
+	"golang.org/x/tools/go/packages"
 	"os"
 	"sort"
 	"strings"
@@ -2093,4 +2094,513 @@ func c10FreshMeasurements(p *Prog, r *Report, rule, which string) {
 		return
 	}
 	r.Undecided(rule, cons, p.pos(fi.Decl), t.what+" can be answered from the field "+cached+" instead of the current state: whether every mutation keeps that field current is beyond this rule ("+t.consequence+")")
+}
+
+// loopVisitsEvery checks that the loop of fi over the given collection calls a function matching pred in every
+// iteration and is never left early: from the start of an iteration every path to the next iteration passes
+// the call, and no path leaves the loop body except through the loop head.
+func loopVisitsEvery(p *Prog, fi *FuncInfo, isCollection func(e ast.Expr) bool, pred callPred) (found bool, bad string) {
+	f := p.FlatOf(fi)
+	var loop *ast.RangeStmt
+	for _, rs := range rangeLoops(fi.Decl.Body) {
+		if isCollection(rs.X) {
+			loop = rs
+		}
+	}
+	if loop == nil {
+		return false, ""
+	}
+	head := f.loopHead(loop)
+	calls := setOf(f.NodesMust(pred))
+	inLoop := func(n *GNode) bool {
+		return n.Ast != nil && n.Ast.Pos() >= loop.Body.Pos() && n.Ast.End() <= loop.Body.End()
+	}
+	var start []int
+	for _, e := range f.Nodes[head].Succs {
+		if e.Label == 1 {
+			start = append(start, e.To)
+		}
+	}
+	reach := f.Reach(start, func(n *GNode) bool { return calls[n.ID] }, nil)
+	for id := range reach {
+		n := f.Nodes[id]
+		if id == head {
+			bad = "an iteration can end without the call"
+		}
+		if n.Ast != nil && !inLoop(n) && id != head {
+			bad = "the loop can be left at " + p.pos(n.Ast) + " before every element was handled"
+		}
+	}
+	any := false
+	for c := range calls {
+		if inLoop(f.Nodes[c]) {
+			any = true
+		}
+	}
+	if !any {
+		bad = "the loop body does not make the call"
+	}
+	return true, bad
+}
+
+// c20DefaultsNotWrittenThrough (seeded C20-E): ParseConfig starts from a copy of the package-level defaults; slices
+// and maps in that copy still share their storage with the defaults. No setting may therefore be written in
+// place (append(x[:0], ...), x[i] = v, copy(x, ...), in-place helpers of package slices): it must be replaced
+// by a fresh value.
+func c20DefaultsNotWrittenThrough(p *Prog, r *Report, rule string) {
+	pkg := p.Pkg("config")
+	if pkg == nil {
+		return
+	}
+	info := pkg.TypesInfo
+	isSetting := func(e ast.Expr) (string, bool) {
+		for {
+			switch x := ast.Unparen(e).(type) {
+			case *ast.SliceExpr:
+				e = x.X
+				continue
+			case *ast.IndexExpr:
+				e = x.X
+				continue
+			case *ast.SelectorExpr:
+				fv, ok := info.Uses[x.Sel].(*types.Var)
+				if !ok || !fv.IsField() {
+					return "", false
+				}
+				switch fv.Type().Underlying().(type) {
+				case *types.Slice, *types.Map:
+					return fv.Name(), true
+				}
+				return "", false
+			}
+			return "", false
+		}
+	}
+	n := 0
+	for _, k := range sortedFuncKeys(p) {
+		fi := p.Funcs[k]
+		if fi.Pkg != pkg || fi.Decl.Body == nil {
+			continue
+		}
+		ast.Inspect(fi.Decl.Body, func(x ast.Node) bool {
+			switch st := x.(type) {
+			case *ast.AssignStmt:
+				for _, l := range st.Lhs {
+					if ix, ok := ast.Unparen(l).(*ast.IndexExpr); ok {
+						if name, ok := isSetting(ix.X); ok {
+							n++
+							r.Viol(rule, fmt.Sprintf("%s#writes-through %s", k, name), p.pos(st), "an element of the setting "+name+" is assigned in place: the storage is shared with the package-level defaults (ParseConfig starts from a copy of them), so the default itself changes for every later parse in the process")
+						}
+					}
+				}
+			case *ast.CallExpr:
+				id, isId := st.Fun.(*ast.Ident)
+				if isId {
+					if _, isB := info.Uses[id].(*types.Builtin); isB && len(st.Args) >= 1 {
+						switch id.Name {
+						case "append":
+							if se, ok := ast.Unparen(st.Args[0]).(*ast.SliceExpr); ok {
+								if name, ok := isSetting(se); ok {
+									n++
+									r.Viol(rule, fmt.Sprintf("%s#writes-through %s", k, name), p.pos(st), "the setting "+name+" is rebuilt inside its old backing array (append(x[:k], ...)): that array is shared with the package-level defaults (ParseConfig starts from a copy of them), so a later parse without this setting returns the overwritten value instead of the documented default")
+								}
+							}
+						case "copy", "clear":
+							if name, ok := isSetting(st.Args[0]); ok {
+								n++
+								r.Viol(rule, fmt.Sprintf("%s#writes-through %s", k, name), p.pos(st), "the setting "+name+" is overwritten in place ("+id.Name+"): its storage is shared with the package-level defaults")
+							}
+						}
+					}
+				}
+				for _, fn := range []string{"Sort", "SortFunc", "Reverse", "Delete", "DeleteFunc", "Insert", "Compact", "CompactFunc", "Replace"} {
+					if isFunc(info, st, "slices", fn) && len(st.Args) >= 1 {
+						if name, ok := isSetting(st.Args[0]); ok {
+							n++
+							r.Viol(rule, fmt.Sprintf("%s#writes-through %s", k, name), p.pos(st), "slices."+fn+" rewrites the setting "+name+" in place: its storage is shared with the package-level defaults")
+						}
+					}
+				}
+			}
+			return true
+		})
+	}
+	if n == 0 {
+		r.Hold(rule, "config#settings-replaced-not-written-through", "", "no slice or map setting is written in place")
+	}
+}
+
+// c17UsageOfConfiguredRoots (seeded C17-E): free space is looked up for the configured roots only; a registered
+// directory whose root is not configured keeps Free = 0 and is never chosen. Every disk.Usage call of
+// repository/dir.Get takes its root from a loop over the configured roots.
+func c17UsageOfConfiguredRoots(p *Prog, r *Report, rule string) {
+	k := "(*internal/repository/dir.Repo).Get"
+	fi := p.Func(k)
+	if fi == nil {
+		return
+	}
+	info := fi.Pkg.TypesInfo
+	f := p.FlatInl(fi)
+	rootVars := map[types.Object]bool{}
+	bodies := []ast.Node{fi.Decl.Body}
+	for _, n := range f.Nodes {
+		if ii, ok := f.Inl[n.ID]; ok {
+			if h := p.Func(ii.Callee); h != nil {
+				bodies = append(bodies, h.Decl.Body)
+			}
+		}
+	}
+	for _, b := range bodies {
+		for _, rs := range rangeLoops(b) {
+			if sel, ok := ast.Unparen(rs.X).(*ast.SelectorExpr); ok && sel.Sel.Name == "roots" && rs.Value != nil {
+				if o := objOf(info, rs.Value); o != nil {
+					rootVars[o] = true
+				}
+			}
+		}
+	}
+	n, bad := 0, ""
+	for _, gn := range f.Nodes {
+		if gn.Ast == nil {
+			continue
+		}
+		for _, c := range callsIn(gn.Ast, false) {
+			if !p.callIs(fi.Pkg, c, "internal/utils/disk.Usage") || len(c.Args) < 2 {
+				continue
+			}
+			n++
+			if o := f.CanonObj(objOf(info, c.Args[1])); o == nil || !rootVars[o] {
+				bad = p.pos(c) + ": disk.Usage(" + types.ExprString(c.Args[1]) + ")"
+			}
+		}
+	}
+	if n == 0 {
+		r.Undecided(rule, k+"#usage-of-configured-roots", p.pos(fi.Decl), "no disk.Usage call found")
+		return
+	}
+	r.Check(bad == "", rule, k+"#usage-of-configured-roots", p.pos(fi.Decl), "free space is measured for the configured roots only",
+		bad+" measures a root taken from a registered directory instead of the configured roots: a directory under a root that is no longer configured (re-registered by the cleaner from its stored path) reports real free space and new content is created outside the configured roots")
+}
+
+// c17AddConsultsRegistry (seeded C17-F): dir.Add answers "already active" only from the registry itself: every
+// successful return is preceded by a look-up of the directory map (a memo of the last path goes stale when the
+// directory is rotated out).
+func c17AddConsultsRegistry(p *Prog, r *Report, rule string) {
+	k := "(*internal/repository/dir.Repo).Add"
+	fi := p.Func(k)
+	if fi == nil {
+		return
+	}
+	info := fi.Pkg.TypesInfo
+	f := p.FlatInl(fi)
+	lookups := setOf(f.Match(func(n *GNode) bool {
+		found := false
+		ast.Inspect(n.Ast, func(x ast.Node) bool {
+			if ix, ok := x.(*ast.IndexExpr); ok {
+				if sel, ok := ast.Unparen(ix.X).(*ast.SelectorExpr); ok {
+					if fv, ok := info.Uses[sel.Sel].(*types.Var); ok && fv.IsField() {
+						if _, isMap := fv.Type().Underlying().(*types.Map); isMap && fv.Name() == "dirs" {
+							found = true
+						}
+					}
+				}
+			}
+			return !found
+		})
+		return found
+	}))
+	bad := ""
+	for _, id := range f.successReturns(fi) {
+		if !f.MustPrecede(lookups, id) {
+			bad = p.pos(f.Nodes[id].Ast)
+		}
+	}
+	r.Check(bad == "" && len(lookups) > 0, rule, k+"#answers-from-the-registry", p.pos(fi.Decl), "every successful return consulted the directory map",
+		"Add can report success at "+bad+" without looking the directory up in the registry: a directory that was rotated out and has regained room through deletions is taken for active and never used again")
+}
+
+// c16SendKeepsAcceptedJobs (seeded C16-F): once Send has registered, the job is handed over or deferred: the only
+// case of its select that gives the job up is the pool's own context (Stop). Waiting on any other Done channel
+// (the caller's context) drops an accepted job.
+func c16SendKeepsAcceptedJobs(p *Prog, r *Report, rule string) {
+	fi := p.Func(kPoolSend)
+	if fi == nil {
+		return
+	}
+	info := fi.Pkg.TypesInfo
+	bodies := []*FuncInfo{fi}
+	walkNoLit(fi.Decl.Body, func(x ast.Node) bool {
+		if c, ok := x.(*ast.CallExpr); ok {
+			if callee := p.staticCallee(fi.Pkg, c); callee != nil && callee.Pkg == fi.Pkg {
+				bodies = append(bodies, callee)
+			}
+		}
+		return true
+	})
+	n, bad := 0, ""
+	for _, b := range bodies {
+		ast.Inspect(b.Decl.Body, func(x ast.Node) bool {
+			cc, ok := x.(*ast.CommClause)
+			if !ok || cc.Comm == nil {
+				return true
+			}
+			var recv ast.Expr
+			switch s := cc.Comm.(type) {
+			case *ast.ExprStmt:
+				if u, ok := ast.Unparen(s.X).(*ast.UnaryExpr); ok && u.Op == token.ARROW {
+					recv = u.X
+				}
+			case *ast.AssignStmt:
+				if len(s.Rhs) == 1 {
+					if u, ok := ast.Unparen(s.Rhs[0]).(*ast.UnaryExpr); ok && u.Op == token.ARROW {
+						recv = u.X
+					}
+				}
+			}
+			c, ok := ast.Unparen(recv).(*ast.CallExpr)
+			if !ok {
+				return true
+			}
+			sel, ok := ast.Unparen(c.Fun).(*ast.SelectorExpr)
+			if !ok || sel.Sel.Name != "Done" {
+				return true
+			}
+			n++
+			// the pool's own context: a field of the receiver
+			isField := false
+			if inner, ok := ast.Unparen(sel.X).(*ast.SelectorExpr); ok {
+				if fv, ok := info.Uses[inner.Sel].(*types.Var); ok && fv.IsField() {
+					isField = true
+				}
+			}
+			if !isField {
+				bad = p.pos(cc) + " (" + types.ExprString(recv) + ")"
+			}
+			return true
+		})
+	}
+	r.Check(bad == "" && n > 0, rule, kPoolSend+"#only-the-pool-gives-a-job-up", p.pos(fi.Decl), "the only Done channel Send waits on is the pool's own",
+		"Send gives the job up when a context other than the pool's ends at "+bad+": a job the pool has accepted is silently dropped (the contents of a rolled-back transaction stay on disk when the request context is cancelled)")
+}
+
+// c11ClientAlwaysAsks (seeded C11-E): the external transaction handle has no opinion of its own: every return of
+// Commit and Rollback is preceded by the RPC (the inline client always asks the usecase, whose Rollback
+// tolerates an unknown transaction).
+func c11ClientAlwaysAsks(p *Prog, r *Report, rule string) {
+	for _, m := range []struct{ name, rpc string }{{"Commit", "CommitTx"}, {"Rollback", "RollbackTx"}} {
+		k := "(*" + pkgExtDB + ".tx)." + m.name
+		fi := p.Func(k)
+		if fi == nil {
+			r.Undecided(rule, k, "", "not found")
+			continue
+		}
+		f := p.FlatInl(fi)
+		rpc := callPred{name: "rpc:" + m.rpc, fn: func(pkg *packages.Package, c *ast.CallExpr) bool {
+			sel, ok := ast.Unparen(c.Fun).(*ast.SelectorExpr)
+			return ok && sel.Sel.Name == m.rpc && p.staticCallee(pkg, c) == nil
+		}}
+		calls := setOf(f.NodesMust(rpc))
+		bad := ""
+		for _, id := range f.ReturnNodes() {
+			if !f.MustPrecede(calls, id) {
+				bad = p.pos(f.Nodes[id].Ast)
+			}
+		}
+		r.Check(bad == "" && len(calls) > 0, rule, k+"#always-asks-the-server", p.pos(fi.Decl), "every return is preceded by "+m.rpc,
+			m.name+" can return at "+bad+" without having asked the server: the client answers from its own state, and its answer differs from the inline client's (a second Rollback is nil inline)")
+	}
+}
+
+// c11HandlersOriginateNoSentinels (seeded C11-F): the gRPC handlers pass on what the usecases decide. The only
+// sentinel a handler produces itself is the protocol error ErrHeaderNotFound; any other fs_db sentinel used in
+// the delivery package is a decision the inline client does not make.
+func c11HandlersOriginateNoSentinels(p *Prog, r *Report, rule string) {
+	allowed := map[string]bool{"fs_db.ErrHeaderNotFound": true}
+	n := 0
+	for _, k := range sortedFuncKeys(p) {
+		fi := p.Funcs[k]
+		if shortPath(fi.Pkg.PkgPath) != pkgDelivery || fi.Decl.Body == nil {
+			continue
+		}
+		info := fi.Pkg.TypesInfo
+		ast.Inspect(fi.Decl.Body, func(x ast.Node) bool {
+			sel, ok := x.(*ast.SelectorExpr)
+			if !ok {
+				return true
+			}
+			v, ok := info.Uses[sel.Sel].(*types.Var)
+			if !ok || v.Pkg() == nil || !isErrorType(v.Type()) || v.Parent() != v.Pkg().Scope() {
+				return true
+			}
+			key := objKey(v)
+			if !strings.HasPrefix(key, "fs_db.") {
+				return true
+			}
+			n++
+			r.Check(allowed[key], rule, fmt.Sprintf("%s#originates %s", k, key), p.pos(sel), "protocol error of the stream",
+				"the handler layer produces "+key+" itself: the server answers from its own judgement where the inline client asks the usecase (the usecases accept an empty key for Get and Delete)")
+			return true
+		})
+	}
+	r.Floor(rule, "sentinels-in-the-delivery-layer", n, 1)
+}
+
+// c19RejectsOnlyShortRecords (seeded C19-E): the decoder accepts everything the encoder can produce: the only
+// reason for unmarshalFile to fail is a record shorter than the fixed header (or a nil target). Every error
+// return is guarded by conditions over len(data) and the target pointer only.
+func c19RejectsOnlyShortRecords(p *Prog, r *Report, rule string) {
+	fi := p.Func(kUnmarshal)
+	if fi == nil {
+		return
+	}
+	info := fi.Pkg.TypesInfo
+	f := p.FlatOf(fi)
+	var dataObj types.Object
+	for _, o := range paramObjs(fi) {
+		if o != nil {
+			if sl, ok := o.Type().(*types.Slice); ok && types.Identical(sl.Elem(), types.Typ[types.Byte]) {
+				dataObj = o
+			}
+		}
+	}
+	sig := fi.Sig()
+	n, bad := 0, ""
+	for _, id := range f.ReturnNodes() {
+		if isRet, nilErr := f.returnsNilError(id, sig); !isRet || nilErr {
+			continue
+		}
+		n++
+		// conditions on which this return depends: branch nodes from which the return is reachable on one edge only
+		for _, c := range f.Nodes {
+			if !c.IsCond {
+				continue
+			}
+			reachT := f.Reach(f.edgeTargets(c.ID, 1), nil, nil)[id]
+			reachF := f.Reach(f.edgeTargets(c.ID, 2), nil, nil)[id]
+			if reachT == reachF {
+				continue
+			}
+			okCond := true
+			ast.Inspect(c.Ast, func(x ast.Node) bool {
+				switch y := x.(type) {
+				case *ast.CallExpr:
+					if id2, ok := y.Fun.(*ast.Ident); ok && id2.Name == "len" && len(y.Args) == 1 && objOf(info, y.Args[0]) == dataObj {
+						return false
+					}
+					okCond = false
+				case *ast.SliceExpr, *ast.IndexExpr:
+					okCond = false
+				}
+				return true
+			})
+			if !okCond {
+				bad = p.pos(c.Ast) + ": " + types.ExprString(c.Ast.(ast.Expr))
+			}
+		}
+	}
+	r.Check(bad == "" && n > 0, rule, kUnmarshal+"#rejects-only-short-records", p.pos(fi.Decl), "the decoder fails only for records shorter than the fixed header",
+		"the decoder rejects a record for a reason other than its length ("+bad+"): the encoder accepts such a record, so a value that was stored cannot be read back and the database no longer opens")
+}
+
+func (f *Flat) edgeTargets(id, label int) []int {
+	var res []int
+	for _, e := range f.Nodes[id].Succs {
+		if e.Label == label {
+			res = append(res, e.To)
+		}
+	}
+	return res
+}
+
+// c19GetAllDecodesEverything (seeded C19-F): file.Repo.GetAll decodes every record it was given; nothing is skipped.
+func c19GetAllDecodesEverything(p *Prog, r *Report, rule string) {
+	k := "(*internal/repository/file.Repo).GetAll"
+	fi := p.Func(k)
+	if fi == nil {
+		return
+	}
+	info := fi.Pkg.TypesInfo
+	// the collection: the result of the provider's GetAll
+	var items types.Object
+	ast.Inspect(fi.Decl.Body, func(x ast.Node) bool {
+		if as, ok := x.(*ast.AssignStmt); ok && len(as.Lhs) == 2 && len(as.Rhs) == 1 {
+			if c, ok := ast.Unparen(as.Rhs[0]).(*ast.CallExpr); ok {
+				if sel, ok := c.Fun.(*ast.SelectorExpr); ok && sel.Sel.Name == "GetAll" {
+					items = objOf(info, as.Lhs[0])
+				}
+			}
+		}
+		return true
+	})
+	found, bad := loopVisitsEvery(p, fi, func(e ast.Expr) bool { return items != nil && objOf(info, e) == items }, p.keysPred(kUnmarshal))
+	if !found {
+		r.Undecided(rule, k+"#every-record-decoded", p.pos(fi.Decl), "no range loop over the records read")
+		return
+	}
+	r.Check(bad == "", rule, k+"#every-record-decoded", p.pos(fi.Decl), "every record read is decoded (or the whole call fails)",
+		bad+": a record is skipped instead of decoded or rejected; its slot in the result is an invented zero record (empty key, zero sequence) that recovery takes for a version, and a damaged database opens instead of being refused")
+}
+
+// c18MirrorWritersCopy (seeded C18-F): a method that replaces the search array must carry the elements over: a
+// copy into a slice made with length 0 moves nothing.
+func c18MirrorWritersCopy(p *Prog, r *Report, rule string) {
+	n := 0
+	for _, k := range sortedFuncKeys(p) {
+		fi := p.Funcs[k]
+		if shortPath(fi.Pkg.PkgPath) != "internal/model/core" || fi.Decl.Body == nil {
+			continue
+		}
+		info := fi.Pkg.TypesInfo
+		// locals made with length 0
+		zeroLen := map[types.Object]bool{}
+		ast.Inspect(fi.Decl.Body, func(x ast.Node) bool {
+			if as, ok := x.(*ast.AssignStmt); ok && len(as.Lhs) == len(as.Rhs) {
+				for i, rhs := range as.Rhs {
+					if c, ok := ast.Unparen(rhs).(*ast.CallExpr); ok {
+						if id, ok := c.Fun.(*ast.Ident); ok && id.Name == "make" && len(c.Args) >= 2 {
+							if v, ok := constInt(info, c.Args[1]); ok && v == 0 {
+								if o := objOf(info, as.Lhs[i]); o != nil {
+									zeroLen[o] = true
+								}
+							}
+						}
+					}
+				}
+			}
+			return true
+		})
+		ast.Inspect(fi.Decl.Body, func(x ast.Node) bool {
+			c, ok := x.(*ast.CallExpr)
+			if !ok || len(c.Args) != 2 {
+				return true
+			}
+			if id, ok := c.Fun.(*ast.Ident); ok && id.Name == "copy" {
+				if _, isB := info.Uses[id].(*types.Builtin); isB {
+					n++
+					if o := objOf(info, c.Args[0]); o != nil && zeroLen[o] {
+						// unless the destination was grown in between: keep it simple - any append/reslice of the destination before the copy
+						grown := false
+						ast.Inspect(fi.Decl.Body, func(y ast.Node) bool {
+							if as, ok := y.(*ast.AssignStmt); ok && as.Pos() < c.Pos() {
+								for i, l := range as.Lhs {
+									if objOf(info, l) == o && i < len(as.Rhs) {
+										if _, isMake := ast.Unparen(as.Rhs[i]).(*ast.CallExpr); !isMake || !strings.HasPrefix(types.ExprString(as.Rhs[i]), "make(") {
+											grown = true
+										}
+									}
+								}
+							}
+							return true
+						})
+						r.Check(grown, rule, fmt.Sprintf("%s#copy-into-%s", k, o.Name()), p.pos(c), "the destination has room for the elements",
+							"copy("+o.Name()+", ...) copies into a slice made with length 0: nothing is carried over, so the search array no longer mirrors the version list and snapshot lookups report 'not found' for keys that have visible versions")
+					}
+				}
+			}
+			return true
+		})
+	}
+	if n == 0 {
+		r.Hold(rule, "model/core#copies-carry-elements", "", "no copy into a zero-length slice")
+	}
 }
